@@ -11,6 +11,7 @@ import (
 	"sort"
 	"strings"
 
+	"golang.org/x/tools/go/packages"
 	"golang.org/x/tools/go/ssa"
 )
 
@@ -453,7 +454,7 @@ func (s *moScan) calleeEffect(call *ast.CallExpr, callee *ssa.Function, sum *dmS
 		if i := strings.Index(root, ":"); i > 0 {
 			root = root[:i]
 		}
-		ef := mk("other", fmt.Sprintf("call %s: %s", cname, e), fmt.Sprintf("call %s: %s", callee.Name(), root))
+		ef := mk("other", fmt.Sprintf("call %s: %s", cname, e), fmt.Sprintf("call %s: %s", moStableCallee(callee), root))
 		ef.callee, ef.item = cname, e.Root+e.Path
 		s.add(ef)
 		return
@@ -465,7 +466,7 @@ func (s *moScan) calleeEffect(call *ast.CallExpr, callee *ssa.Function, sum *dmS
 		if callee.Signature.Variadic() {
 			return
 		}
-		s.add(mk("other", fmt.Sprintf("call %s writes %s%s, argument not identifiable", cname, e.Root, e.Path), "call "+callee.Name()+": arg?"))
+		s.add(mk("other", fmt.Sprintf("call %s writes %s%s, argument not identifiable", cname, e.Root, e.Path), "call "+moStableCallee(callee)+": arg?"))
 		return
 	}
 	for _, arg := range args {
@@ -498,7 +499,24 @@ func (s *moScan) calleeEffect(call *ast.CallExpr, callee *ssa.Function, sum *dmS
 		if e.Last != nil {
 			field = "." + e.Last.Name()
 		}
-		ef := mk("other", "call "+what, fmt.Sprintf("call %s: writes %s%s", callee.Name(), moTypeSig(s.info().TypeOf(arg)), field))
+		// A write through a parameter that receives a plain local of the
+		// enclosing function (not the receiver) is the same effect as the
+		// inline write to that local: `helper(fn, slot)` with `slot[k] = v`
+		// inside reads like `slot[k] = v` in the loop body. The callee's
+		// identity adds nothing for such an effect (the place and the kind of
+		// write are what the review is about), so it gets the inline signature
+		// and a loop body extracted into a helper keeps its signature.
+		if sig, ok := s.inlineWriteSig(arg, e); ok {
+			ef := mk("other", "call "+what, sig)
+			ef.obj = p.obj
+			ef.callee, ef.item = cname, exprStr(arg)+e.Path+"("+e.Op+")"
+			if p.kind == "unknown" {
+				ef.why = p.why
+			}
+			s.add(ef)
+			continue
+		}
+		ef := mk("other", "call "+what, fmt.Sprintf("call %s: writes %s%s", moStableCallee(callee), moTypeSig(s.info().TypeOf(arg)), field))
 		ef.obj = p.obj
 		ef.callee, ef.item = cname, exprStr(arg)+e.Path+"("+e.Op+")"
 		if p.kind == "unknown" {
@@ -506,6 +524,46 @@ func (s *moScan) calleeEffect(call *ast.CallExpr, callee *ssa.Function, sum *dmS
 		}
 		s.add(ef)
 	}
+}
+
+// inlineWriteSig: the signature the effect e of a callee would have if the
+// write were made in the loop body itself, for an argument that is a plain
+// local variable / parameter (not the receiver) of the enclosing function.
+func (s *moScan) inlineWriteSig(arg ast.Expr, e dmEffect) (string, bool) {
+	id, ok := ast.Unparen(arg).(*ast.Ident)
+	if !ok {
+		return "", false
+	}
+	v, ok := moObj(s.info(), id).(*types.Var)
+	if !ok || v.IsField() || v.Pkg() == nil || v.Parent() == nil || v.Parent() == v.Pkg().Scope() {
+		return "", false
+	}
+	if fd := s.l.fd; fd != nil && fd.Recv != nil && len(fd.Recv.List) == 1 && len(fd.Recv.List[0].Names) == 1 {
+		if s.info().Defs[fd.Recv.List[0].Names[0]] == v {
+			return "", false
+		}
+	}
+	place := moTypeSig(v.Type())
+	switch {
+	case e.Path == "":
+	case e.Last != nil && e.First == e.Last && e.Path == "."+e.Last.Name():
+		if e.Last.Exported() {
+			place += "." + e.Last.Name()
+		} else {
+			place += "." + moDual("<"+moTypeSig(e.Last.Type())+">", e.Last.Name())
+		}
+	default:
+		return "", false
+	}
+	switch e.Op {
+	case "mapupdate":
+		return "assign " + place + "[]", true
+	case "store":
+		return "assign " + place, true
+	case "append":
+		return "append to " + place, true
+	}
+	return "", false
 }
 
 func moTypeSig(t types.Type) string {
@@ -638,7 +696,7 @@ func moPlaceSig(info *types.Info, e ast.Expr) string {
 	for {
 		switch x := ast.Unparen(cur).(type) {
 		case *ast.SelectorExpr:
-			fields = append([]string{"." + x.Sel.Name}, fields...)
+			fields = append([]string{"." + moStableSel(info, x)}, fields...)
 			cur = x.X
 			continue
 		case *ast.IndexExpr:
@@ -657,6 +715,79 @@ func moPlaceSig(info *types.Info, e ast.Expr) string {
 	return "?" + strings.Join(fields, "")
 }
 
+// moStableSel: the name of a selected field as it appears in an effect
+// signature. Exported fields keep their name; an unexported field (whose name
+// is an implementation detail that a rename must be free to change) is
+// described by its type.
+func moStableSel(info *types.Info, x *ast.SelectorExpr) string {
+	if v, ok := info.Uses[x.Sel].(*types.Var); ok && v.IsField() && !v.Exported() {
+		return moDual("<"+moTypeSig(v.Type())+">", x.Sel.Name)
+	}
+	return x.Sel.Name
+}
+
+// moDual embeds the name-based spelling used by older reviewed tables next to
+// the rename-stable one; moSigVariant selects one of them.
+func moDual(stable, legacy string) string {
+	if stable == legacy {
+		return stable
+	}
+	return "\x01" + stable + "\x02" + legacy + "\x03"
+}
+
+func moSigVariant(s string, legacy bool) string {
+	for {
+		i := strings.Index(s, "\x01")
+		if i < 0 {
+			return s
+		}
+		// innermost-first is not needed: markers never nest across "\x03"
+		j := strings.Index(s[i:], "\x02")
+		k := strings.Index(s[i:], "\x03")
+		if j < 0 || k < 0 || k < j {
+			return s
+		}
+		if legacy {
+			s = s[:i] + s[i+j+1:i+k] + s[i+k+1:]
+		} else {
+			s = s[:i] + s[i+1:i+j] + s[i+k+1:]
+		}
+	}
+}
+
+// moStableCallee: the name of a callee as it appears in an effect signature:
+// exported functions/methods by name, unexported ones (and function literals)
+// by receiver type and parameter/result types.
+func moStableCallee(f *ssa.Function) string {
+	return moDual(moStableCalleeName(f), f.Name())
+}
+
+func moStableCalleeName(f *ssa.Function) string {
+	if o := f.Object(); o != nil && o.Exported() {
+		return f.Name()
+	}
+	if f.Parent() != nil {
+		return moStableCalleeName(f.Parent()) + "$lit"
+	}
+	sig := f.Signature
+	var b strings.Builder
+	if r := sig.Recv(); r != nil {
+		b.WriteString("(" + moTypeSig(r.Type()) + ").")
+	}
+	b.WriteString("func(")
+	for i := 0; i < sig.Params().Len(); i++ {
+		if i > 0 {
+			b.WriteString(",")
+		}
+		b.WriteString(moTypeSig(sig.Params().At(i).Type()))
+	}
+	b.WriteString(")")
+	for i := 0; i < sig.Results().Len(); i++ {
+		b.WriteString(" " + moTypeSig(sig.Results().At(i).Type()))
+	}
+	return b.String()
+}
+
 // ---- decision ----
 
 type moVerdict struct {
@@ -664,8 +795,28 @@ type moVerdict struct {
 	violated bool // a definite order dependence (not merely "unknown shape")
 	shape    string
 	reasons  []string
-	sig      string
-	notes    []string
+	sig      string // rename-stable effect signature
+	// sigLegacy: the same with unexported fields / callees spelled by name, as
+	// recorded by reviewed tables written before the signature became rename-stable
+	sigLegacy string
+	notes     []string
+}
+
+func moJoinSig(parts []string) (stable, legacy string) {
+	a, b := map[string]bool{}, map[string]bool{}
+	for _, p := range parts {
+		a[moSigVariant(p, false)] = true
+		b[moSigVariant(p, true)] = true
+	}
+	join := func(m map[string]bool) string {
+		var l []string
+		for k := range m {
+			l = append(l, k)
+		}
+		sort.Strings(l)
+		return strings.Join(l, "; ")
+	}
+	return join(a), join(b)
 }
 
 func (s *moScan) readsOutside(match func(ast.Expr, []ast.Node) bool, skip map[ast.Stmt]bool) []token.Pos {
@@ -702,7 +853,18 @@ func (s *moScan) decide(c *Ctx) moVerdict {
 		}
 	}
 	var extra []moEffect
-	for obj, effs := range byObj {
+	// objects in order of their first effect (not in map order: the order of the
+	// reported reasons must not vary between runs)
+	var objOrder []types.Object
+	seenObj := map[types.Object]bool{}
+	for _, e := range s.effects {
+		if e.obj != nil && e.class != "other" && !seenObj[e.obj] {
+			seenObj[e.obj] = true
+			objOrder = append(objOrder, e.obj)
+		}
+	}
+	for _, obj := range objOrder {
+		effs := byObj[obj]
 		if obj == l.val || obj == l.key {
 			continue
 		}
@@ -727,7 +889,12 @@ func (s *moScan) decide(c *Ctx) moVerdict {
 			}
 		}
 		if allKeyed {
+			var kos []string
 			for ko := range keyedOn {
+				kos = append(kos, ko)
+			}
+			sort.Strings(kos)
+			for _, ko := range kos {
 				hits := s.readsOutside(func(e ast.Expr, stack []ast.Node) bool {
 					if exprStr(e) != ko {
 						return false
@@ -816,8 +983,7 @@ func (s *moScan) decide(c *Ctx) moVerdict {
 	for k := range sigSet {
 		sig = append(sig, k)
 	}
-	sort.Strings(sig)
-	v.sig = strings.Join(sig, "; ")
+	v.sig, v.sigLegacy = moJoinSig(sig)
 	v.notes = append(v.notes, s.pruned...)
 
 	var others []moEffect
@@ -920,8 +1086,7 @@ func (s *moScan) decide(c *Ctx) moVerdict {
 	}
 	if sigSet["append-unsorted"] {
 		sig = append(sig, "append-unsorted")
-		sort.Strings(sig)
-		v.sig = strings.Join(sig, "; ")
+		v.sig, v.sigLegacy = moJoinSig(sig)
 	}
 
 	if len(s.exits) > 0 {
@@ -1135,10 +1300,20 @@ func moPrecedesInBlock(st ast.Stmt, x moExit) bool {
 	return false
 }
 
-// sortedAfter: after the loop, the first statement mentioning the slice sorts it.
+// sortedAfter: after the loop, the first statement mentioning the slice sorts
+// it — directly (sort.Strings/slices.Sort/...), through a helper of the module
+// whose first use of the corresponding parameter is such a sort, or — when the
+// slice is handed back to the caller (`return keys` in a key-collecting
+// helper) — at every call site of the enclosing function.
 func (s *moScan) sortedAfter(obj types.Object) (bool, string) {
 	info := s.info()
 	var cur ast.Node = s.l.rs
+	encl := s.l.fd // a `return` after the loop leaves this declaration (not a function literal)
+	for _, par := range s.l.parents {
+		if _, ok := par.(*ast.FuncLit); ok {
+			encl = nil
+		}
+	}
 	for i := len(s.l.parents) - 1; i >= 0; i-- {
 		par := s.l.parents[i]
 		var list []ast.Stmt
@@ -1168,44 +1343,299 @@ func (s *moScan) sortedAfter(obj types.Object) (bool, string) {
 			cur = par
 			continue
 		}
-		for _, st := range list[idx+1:] {
-			mentions := false
-			ast.Inspect(st, func(n ast.Node) bool {
-				if id, ok := n.(*ast.Ident); ok && moObj(info, id) == obj {
-					mentions = true
-				}
-				return true
-			})
-			if !mentions {
-				continue
-			}
-			if es, ok := st.(*ast.ExprStmt); ok {
-				if call, ok := es.X.(*ast.CallExpr); ok && len(call.Args) > 0 {
-					if fn := CalleeOf(info, call); fn != nil && fn.Pkg() != nil {
-						pk, nm := fn.Pkg().Path(), fn.Name()
-						argIsObj := false
-						ast.Inspect(call.Args[0], func(n ast.Node) bool {
-							if id, ok := n.(*ast.Ident); ok && moObj(info, id) == obj {
-								argIsObj = true
-							}
-							return true
-						})
-						if argIsObj {
-							if (pk == "sort" && (nm == "Strings" || nm == "Ints" || nm == "Float64s")) || (pk == "slices" && nm == "Sort") {
-								return true, fmt.Sprintf("sorted by %s.%s before any other use", pk, nm)
-							}
-							if (pk == "sort" && (nm == "Slice" || nm == "SliceStable" || nm == "Sort" || nm == "Stable")) || (pk == "slices" && strings.HasPrefix(nm, "Sort")) {
-								return true, fmt.Sprintf("sorted by %s.%s before any other use (comparator assumed to order distinct elements totally)", pk, nm)
-							}
-						}
-					}
-				}
-			}
-			return false, fmt.Sprintf("its first use after the loop (%s) is not a sort", s.c.Pos(st.Pos()))
+		if ok, decided, why := moFirstUseSorts(s.c, s.l.pkg, info, list[idx+1:], obj, encl, 0); decided {
+			return ok, why
 		}
 		cur = par
 	}
 	return false, "is never sorted afterwards"
+}
+
+func moMentions(info *types.Info, n ast.Node, obj types.Object) bool {
+	m := false
+	ast.Inspect(n, func(x ast.Node) bool {
+		if id, ok := x.(*ast.Ident); ok && moObj(info, id) == obj {
+			m = true
+		}
+		return !m
+	})
+	return m
+}
+
+// moSortCall: call sorts obj (its first argument mentions obj).
+func moSortCall(c *Ctx, info *types.Info, call *ast.CallExpr, obj types.Object, depth int) (bool, string) {
+	if len(call.Args) == 0 {
+		return false, ""
+	}
+	fn := CalleeOf(info, call)
+	if fn == nil || fn.Pkg() == nil {
+		return false, ""
+	}
+	pk, nm := fn.Pkg().Path(), fn.Name()
+	if moMentions(info, call.Args[0], obj) {
+		if (pk == "sort" && (nm == "Strings" || nm == "Ints" || nm == "Float64s")) || (pk == "slices" && nm == "Sort") {
+			return true, fmt.Sprintf("sorted by %s.%s before any other use", pk, nm)
+		}
+		if (pk == "sort" && (nm == "Slice" || nm == "SliceStable" || nm == "Sort" || nm == "Stable")) || (pk == "slices" && strings.HasPrefix(nm, "Sort")) {
+			return true, fmt.Sprintf("sorted by %s.%s before any other use (comparator assumed to order distinct elements totally)", pk, nm)
+		}
+	}
+	// a helper of the module: the argument that is obj itself must be sorted by
+	// the helper before the helper uses it in any other way
+	if depth >= 2 || !strings.HasPrefix(pk, ModPath) {
+		return false, ""
+	}
+	ref := moDeclOf(c, fn)
+	if ref == nil || ref.fd.Body == nil || ref.fd.Type.Params == nil {
+		return false, ""
+	}
+	argIdx := -1
+	for i, a := range call.Args {
+		if id, ok := ast.Unparen(a).(*ast.Ident); ok && moObj(info, id) == obj {
+			if argIdx >= 0 {
+				return false, ""
+			}
+			argIdx = i
+		} else if moMentions(info, a, obj) {
+			return false, ""
+		}
+	}
+	if argIdx < 0 {
+		return false, ""
+	}
+	var params []*ast.Ident
+	for _, f := range ref.fd.Type.Params.List {
+		params = append(params, f.Names...)
+	}
+	if argIdx >= len(params) || fn.Type().(*types.Signature).Variadic() {
+		return false, ""
+	}
+	pobj := ref.pkg.TypesInfo.Defs[params[argIdx]]
+	if pobj == nil {
+		return false, ""
+	}
+	if ok, decided, why := moFirstUseSorts(c, ref.pkg, ref.pkg.TypesInfo, ref.fd.Body.List, pobj, ref.fd, depth+1); decided && ok {
+		return true, fmt.Sprintf("passed to %s, where it is %s", fn.Name(), why)
+	}
+	return false, ""
+}
+
+// moFirstUseSorts scans a statement list: the first statement mentioning obj
+// decides. decided == false: obj is not mentioned in the list.
+func moFirstUseSorts(c *Ctx, pkg *packages.Package, info *types.Info, list []ast.Stmt, obj types.Object, fd *ast.FuncDecl, depth int) (ok, decided bool, why string) {
+	for _, st := range list {
+		if !moMentions(info, st, obj) {
+			continue
+		}
+		switch x := st.(type) {
+		case *ast.ExprStmt:
+			if call, isCall := ast.Unparen(x.X).(*ast.CallExpr); isCall {
+				if ok, why := moSortCall(c, info, call, obj, depth); ok {
+					return true, true, why
+				}
+			}
+		case *ast.ReturnStmt:
+			// handed back unsorted: every caller must sort it first
+			if fd != nil && depth == 0 {
+				if ok, why := moCallersSort(c, pkg, info, fd, x, obj); ok {
+					return true, true, why
+				}
+			}
+		}
+		return false, true, fmt.Sprintf("its first use after the loop (%s) is not a sort", c.Pos(st.Pos()))
+	}
+	return false, false, ""
+}
+
+type moDeclRef struct {
+	fd  *ast.FuncDecl
+	pkg *packages.Package
+}
+
+var moDeclCache = map[*Ctx]map[*types.Func]*moDeclRef{}
+
+func moDeclOf(c *Ctx, fn *types.Func) *moDeclRef {
+	m := moDeclCache[c]
+	if m == nil {
+		m = map[*types.Func]*moDeclRef{}
+		for _, p := range c.All {
+			for _, fd := range AllFuncDecls(p) {
+				if o, ok := p.TypesInfo.Defs[fd.Name].(*types.Func); ok {
+					m[o] = &moDeclRef{fd, p}
+				}
+			}
+		}
+		moDeclCache[c] = m
+	}
+	if o := fn.Origin(); o != nil {
+		fn = o
+	}
+	return m[fn]
+}
+
+// moCallersSort: `return obj` (obj alone as one result) inside fd, and every
+// call of fd in the module assigns that result to a variable whose first use
+// afterwards is a sort.
+func moCallersSort(c *Ctx, pkg *packages.Package, info *types.Info, fd *ast.FuncDecl, ret *ast.ReturnStmt, obj types.Object) (bool, string) {
+	ri := -1
+	for i, r := range ret.Results {
+		if id, ok := ast.Unparen(r).(*ast.Ident); ok && moObj(info, id) == obj {
+			ri = i
+		} else if moMentions(info, r, obj) {
+			return false, ""
+		}
+	}
+	if ri < 0 {
+		return false, ""
+	}
+	// the function must return the slice only there (any other return of a
+	// non-nil slice in that position would escape the check)
+	multi := false
+	ast.Inspect(fd.Body, func(n ast.Node) bool {
+		if _, ok := n.(*ast.FuncLit); ok {
+			return false
+		}
+		if r, ok := n.(*ast.ReturnStmt); ok && r != ret && ri < len(r.Results) {
+			if tv, ok := info.Types[r.Results[ri]]; !ok || !tv.IsNil() {
+				if id, ok := ast.Unparen(r.Results[ri]).(*ast.Ident); !ok || moObj(info, id) != obj {
+					multi = true
+				}
+			}
+		}
+		return true
+	})
+	if multi {
+		return false, ""
+	}
+	self, _ := info.Defs[fd.Name].(*types.Func)
+	if self == nil {
+		return false, ""
+	}
+	sites := 0
+	allSorted := true
+	for _, p := range c.All {
+		for _, f := range p.Syntax {
+			var stack []ast.Node
+			ast.Inspect(f, func(n ast.Node) bool {
+				if n == nil {
+					stack = stack[:len(stack)-1]
+					return true
+				}
+				stack = append(stack, n)
+				call, ok := n.(*ast.CallExpr)
+				if !ok {
+					return true
+				}
+				callee := CalleeOf(p.TypesInfo, call)
+				if callee == nil {
+					return true
+				}
+				if o := callee.Origin(); o != nil {
+					callee = o
+				}
+				if callee != self {
+					return true
+				}
+				sites++
+				if !moCallResultSorted(c, p, stack, call, ri) {
+					allSorted = false
+				}
+				return true
+			})
+		}
+	}
+	// a function value taken without calling it escapes the check
+	if sites == 0 || !allSorted || moFuncValueEscapes(c, self) {
+		return false, ""
+	}
+	return true, fmt.Sprintf("returned to the caller; all %d call site(s) of %s sort the result before any other use", sites, fd.Name.Name)
+}
+
+// moFuncValueEscapes: fn is mentioned somewhere other than as the callee of a call.
+func moFuncValueEscapes(c *Ctx, fn *types.Func) bool {
+	esc := false
+	for _, p := range c.All {
+		for _, f := range p.Syntax {
+			var stack []ast.Node
+			ast.Inspect(f, func(n ast.Node) bool {
+				if n == nil {
+					stack = stack[:len(stack)-1]
+					return true
+				}
+				stack = append(stack, n)
+				id, ok := n.(*ast.Ident)
+				if !ok || p.TypesInfo.Uses[id] != types.Object(fn) {
+					return true
+				}
+				// walk up through selector / paren to the call
+				k := len(stack) - 2
+				var child ast.Node = id
+				for k >= 0 {
+					switch x := stack[k].(type) {
+					case *ast.SelectorExpr:
+						if x.Sel == child {
+							child = x
+							k--
+							continue
+						}
+					case *ast.ParenExpr, *ast.IndexExpr, *ast.IndexListExpr:
+						child = stack[k]
+						k--
+						continue
+					}
+					break
+				}
+				if k < 0 {
+					esc = true
+					return true
+				}
+				if call, ok := stack[k].(*ast.CallExpr); !ok || call.Fun != child {
+					esc = true
+				}
+				return true
+			})
+		}
+	}
+	return esc
+}
+
+// moCallResultSorted: the call (innermost node of stack) is the sole right-hand
+// side of an assignment / definition in a statement list, and the variable
+// receiving result ri is sorted before any other use.
+func moCallResultSorted(c *Ctx, p *packages.Package, stack []ast.Node, call *ast.CallExpr, ri int) bool {
+	if len(stack) < 3 {
+		return false
+	}
+	as, ok := stack[len(stack)-2].(*ast.AssignStmt)
+	if !ok || len(as.Rhs) != 1 || ast.Unparen(as.Rhs[0]) != ast.Expr(call) || ri >= len(as.Lhs) {
+		return false
+	}
+	id, ok := as.Lhs[ri].(*ast.Ident)
+	if !ok || id.Name == "_" {
+		return false
+	}
+	v := moObj(p.TypesInfo, id)
+	if v == nil {
+		return false
+	}
+	var list []ast.Stmt
+	switch b := stack[len(stack)-3].(type) {
+	case *ast.BlockStmt:
+		list = b.List
+	case *ast.CaseClause:
+		list = b.Body
+	case *ast.CommClause:
+		list = b.Body
+	default:
+		return false
+	}
+	for i, st := range list {
+		if st == ast.Stmt(as) {
+			ok, decided, _ := moFirstUseSorts(c, p, p.TypesInfo, list[i+1:], v, nil, 1)
+			return ok && decided
+		}
+	}
+	return false
 }
 
 // replaceCommutes: `acc = strings.ReplaceAll(acc, k, v)` over a literal map is
